@@ -341,6 +341,54 @@ def check_C14(c):
                          "csv is read back with As(<element type>)"]
 
 
+FLAYS = ("F", "FT", "FCol", "Fconv")
+
+
+def check_C16(c):
+    q = c.quick
+    mixed = ("C", "F", "FT", "FCol") if q else ("C", "T", "Col", "F", "FT", "FCol", "Fconv")
+    # elementwise: every operand and reuse destination independently column-major
+    for kinds, name, dts, ops in ((["Arith"], "f-arith", "numeric", "add,sub,div,pow,max"), (["Cmp"], "f-cmp", "ordered", "lt,gte,eq"),
+                                  (["Unary"], "f-unary", "float64,int32,complex64", "neg,sqrt,clamp,apply")):
+        k = elem_consts(q, kinds, laya=mixed, layb=mixed, modes=("safe", "unsafe", "reuse", "incr"), layd=("C", "F"), mismatch=False,
+                        MinRank=1, MaxRank=2 if q else 3, MaxDim=3, HiRank=3)
+        cases = c.tlc("MC_elem", name, k, ELEM_INV)
+        c.replay(name, cases, dtypes=dts, pals="ident,signed", rotate=2 if q else 0,
+                 extra=["-ops", ops, "-entries", "func,method"] + (["-oprotate", "2", "-palrotate", "1"] if q else []))
+    # reductions
+    k = dict(MinRank=1, MaxRank=3, MaxDim=3, MaxDimHi=2, HiRank=3, LayA={S(x) for x in FLAYS}, Kinds={S("Reduce"), S("Arg")})
+    cases = c.tlc("MC_reduce", "f-reduce", k, ["TypeOK", "Emit"])
+    c.replay("f-reduce", cases, dtypes="float64,int16,uint8", pals="ident,signed", rotate=1 if q else 0, extra=["-ops", "all"])
+    # products
+    k = dict(MaxDim=2 if q else 3, MaxRankT=2, LayA={S(x) for x in ("C", "F", "FT")}, LayB={S(x) for x in ("C", "F", "FT")},
+             Modes={S("safe"), S("reuse"), S("incr")}, Kinds={S(x) for x in ("MatMul", "MatVecMul", "Inner", "Outer", "Trace")})
+    cases = c.tlc("MC_linalg", "f-linalg", k, ["TypeOK", "Emit"])
+    c.replay("f-linalg", cases, dtypes="floatcomplex", pals="ident,signed", rotate=2 if q else 0, extra=["-entries", "func,method"])
+    # assembly
+    for name, k in assemble_jobs(True):
+        k = dict(k, Lays={S(x) for x in ("C", "F", "FT")})
+        cases = c.tlc("MC_assemble", "f-" + name, k, ["TypeOK", "Emit"])
+        c.replay("f-" + name, cases, dtypes="sizes", pals="ident", rotate=1 if q else 0, extra=["-entries", "func,method"])
+    # copies, conversion, access, slicing, transposition of column-major tensors
+    W = {S(x) for x in ("Memset", "Zero", "UnsafeUn", "SetSweep", "SetAt", "Copy")}
+    C = {S(x) for x in ("Clone", "Materialize", "SafeT", "CopyInto", "Native", "Mat64")}
+    k = dict(MinRank=1, MaxRank=3, MaxDim=3, MaxDimHi=2, HiRank=3, Ctors={S("F"), S("Fconv")}, ViewDepth=1, RichPalette=False, Writes=W, Copies=C)
+    cfgp = c.scr.path("f-views.cfg")
+    write_cfg(cfgp, consts=k, invariants=["TypeOK", "Emit"], properties=["Frame"])
+    cases = c.scr.path("f-views.cases.ndjson")
+    r = run_tlc(c.scr, "MC_views", cfgp, cases)
+    c.rep.add_tlc("f-views", r)
+    c.replay("f-views", cases, dtypes="all", pals="ident", rotate=2 if q else 0)
+    # mixed-order Copy
+    k = dict(MinRank=1, MaxRank=3, MaxDim=3, MaxDimHi=2, HiRank=3, Lays={S("C"), S("F"), S("FT")})
+    cases = c.tlc("MC_copy", "f-copy", k, ["TypeOK", "Emit"])
+    c.replay("f-copy", cases, dtypes="sizes", pals="ident", rotate=2 if q else 0)
+    c.rep.rule = ("the operation families of C04, C06-C12 re-enumerated by TLC with each operand and reuse destination independently "
+                  "column-major (declared, converted, lazily transposed column-major, inner slice of a column-major base), alone and mixed "
+                  "with row-major operands; the Level-1 oracle does not mention data order, which is the property; refusal accepted")
+    c.rep.assumptions = ["Reshape follows the tensor's own data order and is checked under C13", "a divergence that needs a column-major operand is attributed here"]
+
+
 def mask_consts(q, mode):
     suffix = "-q" if q else "-t"
     if mode == "iter":
@@ -399,7 +447,7 @@ def check_C05(c):
     c.rep.assumptions = ["Coord() after exhaustion is not specified and not compared", "the masked multi-iterator's validity stepping is outside the statement"]
 
 
-CHECKS = {"C01": check_C01, "C02": check_C02, "C03": check_C03, "C04": check_C04, "C13": check_C13, "C06": check_C06, "C07": check_C07, "C11": check_C11, "C12": check_C12, "C08": check_C08, "C09": check_C09, "C10": check_C10, "C05": check_C05, "C15": check_C15, "C14": check_C14}
+CHECKS = {"C01": check_C01, "C02": check_C02, "C03": check_C03, "C04": check_C04, "C13": check_C13, "C06": check_C06, "C07": check_C07, "C11": check_C11, "C12": check_C12, "C08": check_C08, "C09": check_C09, "C10": check_C10, "C05": check_C05, "C15": check_C15, "C14": check_C14, "C16": check_C16}
 
 HOOK_COMMITS = []
 NOT_YET = {}
@@ -460,6 +508,10 @@ LEVELS = {
             "technique": "TLC-enumerated encode/decode behaviours (MC_io over RoundTripT in Tensor.tla) replayed with the real encoders and decoders",
             "text": "bounded exhaustive model checking of the structure (format x shape x layout x mask); the wire value is abstract in the specification, the replayer runs the real encoder and decoder and compares the decoded tensor with the specification's logical content",
             "note": "bounded (rank<=4, dims<=3); byte-level fidelity is opaque to the model"},
+    "C16": {"ref": "DESIGN.md 4 C16",
+            "technique": "the TLC-enumerated operation families (MC_elem, MC_reduce, MC_linalg, MC_assemble, MC_views, MC_copy) re-parameterised with column-major operand layouts and replayed",
+            "text": "bounded exhaustive model checking: the same Level-1 specification (which has no notion of data order) is the oracle for every combination of row- and column-major operands and destinations in bounds",
+            "note": "bounded (rank<=3, dims<=3); refusal accepted"},
     "C01": {"ref": "DESIGN.md 4 C01",
             "technique": "TLC-enumerated behaviours of the TLA+ tensor machine (MC_addr) replayed on the real library",
             "text": "bounded exhaustive model checking: TLC enumerates every shape/constructor/layout in bounds and the complete coordinate->cell table of each; every table entry is executed (At and SetAt) on the real tensor for every element type, with a full snapshot of all storage around each write",
